@@ -83,7 +83,13 @@ def param_script(seed):
     s.rvec("sv", [0.01, 0.02])
     s.op("p4=vnacal_make_correlated_parameter $vc $p2 @sf 2 @sv")
     s.op("p5=vnacal_make_correlated_parameter $vc $p1 NULL 1 @sv")
-    for p in ("$p1", "$p2", "$p3", "$p4", "$p5", "0", "1", "2"):
+    # sigma given per point of the correlate's own grid (NULL frequency
+    # vector): the new parameter borrows the vector parameter's frequencies
+    s.rvec("sv4", [0.01, 0.02, 0.03, 0.04])
+    s.op("p6=vnacal_make_correlated_parameter $vc $p2 NULL 4 @sv4")
+    s.op("p7=vnacal_make_unknown_parameter $vc $p2")
+    s.op("p8=vnacal_make_correlated_parameter $vc $p7 NULL 4 @sv4")
+    for p in ("$p1", "$p2", "$p3", "$p4", "$p5", "$p6", "$p8", "0", "1", "2"):
         s.op("vnacal_get_parameter_value $vc %s %s" % (p, hx(2.5e9)))
     for k in range(12):
         s.op("q%d=vnacal_make_scalar_parameter $vc %s" % (k, cx(0.1 * k + 0.05j)))
